@@ -445,6 +445,8 @@ type Clause struct {
 }
 
 type Contract struct {
+	Relies   []*Clause // rely after <channel>: assumptions about what the responder of a ReqResp filled in
+	Sites    []*Clause // site assertions: "site mapstore <local>: expr" - obligation at every store into that local map
 	Key      string   // pkgpath.Recv.Name or pkgpath.Name
 	Params   []string // optional explicit parameter names (receiver first)
 	Props    []string
@@ -534,7 +536,7 @@ type Macro struct {
 }
 
 var clauseKw = map[string]bool{"requires": true, "ensures": true, "modifies": true, "loop": true, "panics_if": true,
-	"property": true, "option": true, "represents": true, "establishes": true, "trusted": true, "pure": true, "inline": true}
+	"property": true, "option": true, "site": true, "rely": true, "represents": true, "establishes": true, "trusted": true, "pure": true, "inline": true}
 
 // parseSpecFile parses the //@ lines of a contract file.
 func parseSpecFile(path, text, pkg string, trusted bool) (*SpecFile, error) {
@@ -658,6 +660,42 @@ func parseSpecFile(path, text, pkg string, trusted bool) (*SpecFile, error) {
 			case "establishes":
 				cur.Establishes = append(cur.Establishes, c)
 			}
+		case "rely":
+			// rely after <request channel key> label: expr -- assumed right after a gchan.ReqResp on that channel returns ok:
+			// what the responding goroutine guarantees about memory it filled in (listed as an assumption; the guarantee is
+			// an obligation of the responder's contract where one exists)
+			if cur == nil {
+				return nil, fmt.Errorf("%s: clause outside func", loc)
+			}
+			f := strings.Fields(rest)
+			if len(f) < 3 || f[0] != "after" {
+				return nil, fmt.Errorf("%s: expected 'rely after <channel> label: expr'", loc)
+			}
+			target := f[1]
+			body := strings.TrimSpace(strings.SplitN(rest, target, 2)[1])
+			label, body := splitLabel(body)
+			e, err := parseSpecExpr(body)
+			if err != nil {
+				return nil, fmt.Errorf("%s: %v", loc, err)
+			}
+			cur.Relies = append(cur.Relies, &Clause{Kind: "rely", Label: label, Text: body, Expr: e, Line: loc, LoopFn: target})
+		case "site":
+			// site mapstore <local> [label]: expr  -- assertion at every map store into the local variable <local>
+			if cur == nil {
+				return nil, fmt.Errorf("%s: clause outside func", loc)
+			}
+			f := strings.Fields(rest)
+			if len(f) < 3 || (f[0] != "mapstore" && f[0] != "reqresp") {
+				return nil, fmt.Errorf("%s: expected 'site mapstore <local> label: expr' or 'site reqresp <channel> label: expr'", loc)
+			}
+			target := f[1]
+			body := strings.TrimSpace(strings.SplitN(rest, target, 2)[1])
+			label, body := splitLabel(body)
+			e, err := parseSpecExpr(body)
+			if err != nil {
+				return nil, fmt.Errorf("%s: %v", loc, err)
+			}
+			cur.Sites = append(cur.Sites, &Clause{Kind: "site-" + f[0], Label: label, Text: body, Expr: e, Line: loc, Props: cprops, LoopFn: target})
 		case "modifies":
 			if cur == nil {
 				return nil, fmt.Errorf("%s: clause outside func", loc)
@@ -668,6 +706,14 @@ func parseSpecFile(path, text, pkg string, trusted bool) (*SpecFile, error) {
 					continue
 				}
 				c := &Clause{Kind: "modifies", Text: part, Line: loc}
+				if strings.HasPrefix(part, "ghost ") {
+					// modifies ghost <name>: the whole ghost heap may change
+					c.LoopFn = strings.TrimSpace(strings.TrimPrefix(part, "ghost "))
+					c.Text, part = "ghost", "nothing"
+					c.Label = "ghost"
+					cur.Modifies = append(cur.Modifies, c)
+					continue
+				}
 				if strings.HasPrefix(part, "memory except ") {
 					c.Except = strings.Fields(strings.TrimPrefix(part, "memory except "))
 					c.Text, part = "memory", "memory"
